@@ -22,6 +22,8 @@
 mod types;
 #[path = "../c02/beh.rs"]
 mod beh;
+#[path = "../c02/zst.rs"]
+mod zst;
 
 use roto::verif_hooks::c02 as hook;
 use roto::{FileTree, NoCtx, Runtime, Val, library};
@@ -634,6 +636,8 @@ fn main() {
             let mut rep = Report::default();
             // corpus first
             beh::corpus(&mut rep);
+            // the fixed battery over zero-sized registered values
+            zst::run(&mut rep);
             // in chunks, so that a tree on which many cases crash or hang ends
             // the phase after a handful of witnesses instead of paying the
             // time limit hundreds of times
@@ -675,6 +679,15 @@ fn main() {
                 rep.notes.push("behavioural phase stopped early after 6 crashed / hanging cases".into());
             }
             rep.emit();
+        }
+        Some("zst") => {
+            let mut rep = Report::default();
+            zst::run(&mut rep);
+            rep.emit();
+        }
+        Some("zst-one") => {
+            start_watchdog(30);
+            zst::one(args[2].parse().expect("index"));
         }
         Some("worker") => {
             let (seed, base): (u64, u64) = match args[3].split_once(':') {
